@@ -51,6 +51,29 @@ def build_doc(case):
             t = "netconanRemoved%d" % rng.randint(0, 6)
             if all(t != s["text"] for s in secrets):
                 twin = {"cls": "text", "text": t, "cores": [], "sub": "replacement-shaped"}
+        if twin is None and c == "type7" and rng.random() < 0.3:
+            # a DIFFERENT type-7 string hiding the same password (another offset): a different secret as far as the text goes
+            base = next((s for s in secrets if s["cls"] == "type7" and s.get("plain")), None)
+            if base is not None:
+                for salt in rng.sample(range(16), 16):
+                    t = decoders.type7_encode(base["plain"], salt)
+                    if re.search(r"[A-F]", t) and all(t != s.get("text") for s in secrets):
+                        twin = {"cls": "type7", "text": t, "cores": [t, t[2:]], "plain": base["plain"], "sub": "same-password-other-offset"}
+                        break
+        if twin is None and c == "text" and rng.random() < 0.1:
+            # clear text equal to the password hidden in an earlier type-7 string: again a different secret
+            base = next((s for s in secrets if s["cls"] == "type7" and re.fullmatch(r"[A-Za-z0-9]*[g-zG-Z][A-Za-z0-9]*", s.get("plain") or "")), None)
+            if base is not None and all(base["plain"] != s.get("text") for s in secrets):
+                twin = {"cls": "text", "text": base["plain"], "cores": [], "sub": "equals-type7-password"}
+        if twin is None and c == "j9" and rng.random() < 0.15:
+            # two $9$ secrets whose plaintexts are the Latin-1 and the UTF-8 byte spelling of one non-ASCII word: different plaintexts
+            base = next((s for s in secrets if s.get("sub") == "latin1-spelling"), None)
+            if base is None:
+                w = rng.choice(S._NONHEX) + S._rand(rng, "abcdefghijklmnopqrstuvwxyz0123456789", 4, 9) + rng.choice("\xe9\xfc\xf1\xdf\xe5") + rng.choice(S._NONHEX)
+                twin = {"cls": "j9", "plain": w, "text": None, "cores": [], "plain_class": "latin1", "sub": "latin1-spelling"}
+            elif not any(s.get("sub") == "utf8-spelling" for s in secrets):
+                twin = {"cls": "j9", "plain": base["plain"].encode("utf-8").decode("latin-1"), "text": None, "cores": [],
+                        "plain_class": "latin1", "sub": "utf8-spelling"}
         if twin is None and c == "j9":
             twin = S.gen_secret(rng, "j9", plain_class=rng.choice([None, None, "numeric", "hex"]))
         secrets.append(twin or S.gen_secret(rng, c, plain_alpha=True))
